@@ -27,19 +27,19 @@ def opsSegs : List Bytes → Bytes → List OOp → List Bytes × Bytes
   | done, cur, OOp.append d :: ops => opsSegs done (cur ++ d) ops
   | done, cur, OOp.flush :: ops => if cur = [] then opsSegs done [] ops else opsSegs (done ++ [cur]) [] ops
 
-/-- executable version for the toy format: split at the `00` terminators (fuel = length) -/
-def toyDecodeAllAux : Nat → Bytes → Option Bytes
-  | 0, [] => some []
-  | 0, _ :: _ => none
-  | _ + 1, [] => some []
-  | k + 1, m :: r =>
-    if m = 0 then toyDecodeAllAux k r
+/-- executable version for the toy format: split at the `00` terminators (fuel = length); a stream that ends inside a member
+(after a data byte, without terminator) is not a sequence of members -/
+def toyDecodeAllAux : Nat → Bool → Bytes → Option Bytes
+  | _, inMember, [] => if inMember then none else some []
+  | 0, _, _ :: _ => none
+  | k + 1, _, m :: r =>
+    if m = 0 then toyDecodeAllAux k false r
     else if m = 1 then
       match r with
       | [] => none
-      | b :: r' => (toyDecodeAllAux k r').map (b :: ·)
+      | b :: r' => (toyDecodeAllAux k true r').map (b :: ·)
     else none
 
-def toyDecodeAll (s : Bytes) : Option Bytes := toyDecodeAllAux s.length s
+def toyDecodeAll (s : Bytes) : Option Bytes := toyDecodeAllAux s.length false s
 
 end Sqfs.Xfrm.Spec
